@@ -1072,6 +1072,46 @@ h!(c15_requester_ok_ok, 8, f_c15_requester(true, true));
 h!(c15_requester_ok_rej, 8, f_c15_requester(true, false));
 h!(c15_requester_rej_ok, 8, f_c15_requester(false, true));
 
+/// The id of an answered request is reused by a second request BEFORE the first requester is
+/// polled again: the first requester's completion must not touch the second request.
+fn f_c15_requester_id_reuse(first_ok: bool) {
+    let mut ep = endpoint(small_options(), KRng::fixed([ID_C, ID_C, 9, 9]));
+    let h = leak1(kani::any());
+    let f1 = ep.mux.request_bind(&h[..], 1, BindType::Stream);
+    let mut f1 = core::mem::ManuallyDrop::new(f1);
+    vassert!(poll_once(unsafe { Pin::new_unchecked(&mut *f1) }).is_pending(), "P:C15 bind request resolved before any answer");
+    vassert!(pop_out(&mut ep.tx_msg_rx) == Out::Frame { op: OpCode::Bind, id: ID_C }, "P:C15 bind request did not send a Bind frame under the drawn id");
+    let a1 = if first_ok { Frame::new_finish(ID_C) } else { Frame::new_reset(ID_C) };
+    let r = now_or_never(ep.task.process_frame(a1, false));
+    vassert!(matches!(r, Some(Ok(()))), "P:C10 bind answer made process_frame fail");
+    core::mem::forget(r);
+    // second request: the id is free again and is drawn again
+    let f2 = ep.mux.request_bind(&h[..], 2, BindType::Datagram);
+    let mut f2 = core::mem::ManuallyDrop::new(f2);
+    vassert!(poll_once(unsafe { Pin::new_unchecked(&mut *f2) }).is_pending(), "P:C15 second bind request resolved before any answer");
+    vassert!(pop_out(&mut ep.tx_msg_rx) == Out::Frame { op: OpCode::Bind, id: ID_C }, "P:C15 the released id was not reused for the second request");
+    // only now the first requester runs again
+    match poll_once(unsafe { Pin::new_unchecked(&mut *f1) }) {
+        Poll::Ready(Ok(v)) => vassert!(v == first_ok, "P:C15 bind request resolved with the wrong verdict"),
+        _ => vfail!("P:C15 answered bind request did not resolve"),
+    }
+    let sn = snap(&ep, ID_C, None);
+    vassert!(sn.present && sn.kind == 2, "P:C15 completing one bind request removed the pending request that reuses its id");
+    vassert!(pop_out(&mut ep.tx_msg_rx) == Out::Nothing, "P:C15 completing a bind request sent a frame");
+    let r = now_or_never(ep.task.process_frame(Frame::new_finish(ID_C), false));
+    vassert!(matches!(r, Some(Ok(()))), "P:C10 bind answer made process_frame fail");
+    core::mem::forget(r);
+    match poll_once(unsafe { Pin::new_unchecked(&mut *f2) }) {
+        Poll::Ready(Ok(v)) => vassert!(v, "P:C15 the second bind request, accepted by the peer, did not resolve with true"),
+        _ => vfail!("P:C15 the second bind request, accepted by the peer, did not resolve"),
+    }
+    vassert!(pop_out(&mut ep.tx_msg_rx) == Out::Nothing, "P:C15 a bind answer was answered");
+    kani::cover!(true, "id reuse evaluated");
+    forget_ep(ep);
+}
+h!(c15_requester_id_reuse_ok, 8, f_c15_requester_id_reuse(true));
+h!(c15_requester_id_reuse_rej, 8, f_c15_requester_id_reuse(false));
+
 /// A pending bind request when the connection winds down resolves with `false`.
 fn f_c15_teardown() {
     let mut ep = endpoint(small_options(), KRng::fixed([ID_C, 2, 3, 4]));
